@@ -539,6 +539,13 @@ class CallMixin:
             if isinstance(args[0], Val) and args[0].sort == STR:
                 return [(st, args[0])]
             return [(st, fresh(STR, "str"))]
+        if name == "float" and len(args) == 1 and isinstance(args[0], Val) and (
+                args[0].sort == OPAQUE or (isinstance(args[0].sort, OptSort) and args[0].sort.inner == OPAQUE)):
+            # floats are not modelled: float(<number the library itself produced>) is an unconstrained opaque value;
+            # float(None) would be a TypeError
+            if isinstance(args[0].sort, OptSort):
+                self.oblige(st, "safe", f"not-none@{getattr(node, 'lineno', 0)}:float", z3.Not(args[0].t[0]), node)
+            return [(st, fresh(OPAQUE, "float"))]
         if name == "callable":
             return [(st, vbool(self.callable_(node, st, args[0])))]
         if name == "getattr":
@@ -868,7 +875,7 @@ class CallMixin:
                 return [(st, vbool(z3.Or(*[mkp(p) for p in pats])))]
         if isinstance(s, ListSort):
             tgt = self.recv_lvalue(node)
-            if name == "append":
+            if name in ("append", "put", "put_nowait"):      # asyncio.Queue / queue.Queue are modelled as lists (FIFO: put = append)
                 self.store_lvalue(tgt, st, self.append_list(st, self.load_lvalue(tgt, st), self.coerce(args[0], s.elem, node)))
                 return [(st, VNONE)]
             if name == "extend":
